@@ -20,6 +20,10 @@ CHECKS = {
          "Every catalogue date-time is combined with a per-operand catalogue of durations that hit the exact range ends ±2 ns, day carries, sign/fraction combinations and TimeDelta extremes; iterators are driven to exhaustion at both range ends; all ordered pairs of N values check the distance laws; operator forms are compared with checked forms; the same instants are required whatever the offset. Both the overflow-checking and the plain release build are exercised because wrap-around is only visible as a value in the latter.",
          "Trusted: reference instant model. Leap-second operands are excluded here by the property (C07). Random part is sampling.",
          "DESIGN.md §4 C03"),
+ "C04": ("differential runtime monitor: wall = utc + offset reference model evaluated next to every construction, accessor, text form, field replacement, day/month step and comparison of DateTime<FixedOffset>/<Utc>, dense at the range ends and over one-second offsets",
+         "Instants at both range ends (and catalogue dates) are combined with stratified offsets (thorough: every one-second offset in (-24h, +24h) at 5 instants) so that the wall clock lands in the one-day headroom on both sides; each value goes through ~300 calls whose results are compared with the reference wall-clock model, and all ordered pairs of N values check that equality/order/hash/conversion depend only on the instant. Sampling of an infinite product space, concentrated where the specification has its edges.",
+         "Trusted: reference calendar/instant model. A leap-second representation inside the very last second of the range is counted but not judged (the property does not place it). Five known findings (stepping INTO the headroom is refused) are listed in known_findings.json.",
+         "DESIGN.md §4 C04"),
 }
 NOT_YET = {}
 
